@@ -153,8 +153,88 @@ def real_statements(manifest, bdir):
         out[frozenset(norm(o) for o in b.all_outs())] = {
             'explicit': sorted({norm(x) for x in b.ins}), 'implicit': sorted({norm(x) for x in b.implicit}),
             'order_only': sorted({norm(x) for x in b.order_only}), 'ancestors': anc, 'index': b.index,
-            'first': norm(b.all_outs()[0])}
+            'first': norm(b.all_outs()[0]), 'rule': b.rule}
     return out
+
+
+READ_CLAUSES = [
+    'custom command: generated input', 'custom command: output of depends', 'custom command: built tool',
+    'custom command: library of the built tool', 'custom command: built executable as input',
+    'generator rule: built tool', 'generator rule: output of depends',
+    'compilation: generated source', 'compilation: declared generated header (custom target)',
+    'compilation: generated header of the target\'s own generator',
+    'compilation: generator-made header of a linked library', 'compilation: what the generated source refers to (closure)',
+    'link: object', 'link: static library', 'link: object of a (thin) static library', 'link: shared library',
+    'link: library behind a shared library', 'archive: object', 'symbol file: shared library']
+
+
+def classify_reads(real, observed_reads, produced):
+    """Which clauses of the read assumption of coq/Graph/Gen.v did strace actually observe?  One
+    count per (step, generated file read), classified from the REAL statement: its rule, whether
+    the file is an explicit / implicit / order-only input or only reachable through ancestors,
+    and what kind of file it is."""
+    from collections import Counter
+    c = Counter()
+    by_first = {r['first']: (key, r) for key, r in real.items()}
+    for first, reads in observed_reads.items():
+        if first not in by_first:
+            continue
+        key, st = by_first[first]
+        rule = st['rule']
+        own_priv = None
+        if '.p' + os.sep in first:
+            own_priv = first[:first.index('.p' + os.sep) + 2]
+        for p in reads:
+            if p not in produced or p in key:
+                continue
+            where = ('explicit' if p in st['explicit'] else 'implicit' if p in st['implicit'] else
+                     'order_only' if p in st['order_only'] else 'ancestor')
+            is_lib = p.endswith(('.so', '.a'))
+            is_exe = not os.path.splitext(p)[1] and '.p' + os.sep not in p
+            in_priv = '.p' + os.sep in p
+            if rule.startswith('CUSTOM_COMMAND'):
+                gen_rule = own_priv is not None     # generator outputs go to the private directory of the using target
+                pre = 'generator rule: ' if gen_rule else 'custom command: '
+                if p.endswith('.so'):
+                    c[pre + 'library of the built tool'] += 1
+                elif is_exe and where == 'explicit':
+                    c[pre + 'built executable as input'] += 1
+                elif is_exe:
+                    c[pre + 'built tool'] += 1
+                elif where == 'explicit':
+                    c[pre + 'generated input'] += 1
+                else:
+                    c[pre + 'output of depends'] += 1
+            elif rule.endswith('_COMPILER'):
+                if where == 'explicit':
+                    c['compilation: generated source'] += 1
+                elif where == 'order_only' and in_priv and own_priv and p.startswith(own_priv):
+                    c['compilation: generated header of the target\'s own generator'] += 1
+                elif where == 'order_only' and in_priv:
+                    c['compilation: generator-made header of a linked library'] += 1
+                elif where == 'order_only':
+                    c['compilation: declared generated header (custom target)'] += 1
+                else:
+                    c['compilation: what the generated source refers to (closure)'] += 1
+            elif rule == 'STATIC_LINKER':
+                c['archive: object'] += 1
+            elif rule == 'SHSYM':
+                c['symbol file: shared library'] += 1
+            elif rule.endswith('_LINKER'):
+                if where == 'explicit':
+                    c['link: object'] += 1
+                elif p.endswith('.a'):
+                    c['link: static library'] += 1
+                elif p.endswith('.o'):
+                    c['link: object of a (thin) static library'] += 1
+                elif p.endswith('.so'):
+                    direct = any(i.startswith(p + '.p' + os.sep) for i in st['implicit'])
+                    c['link: shared library' if direct else 'link: library behind a shared library'] += 1
+                else:
+                    c['link: other'] += 1
+            else:
+                c['other: ' + rule] += 1
+    return c
 
 
 def parse_model(answer, R):
